@@ -28,3 +28,12 @@ Print Assumptions C03_number_progress.
 (* non-vacuity / regression: the inputs that hung the unrepaired scanner *)
 Example C03_hang_inputs : (exists r, lex (s2l "PRINT 1EE"%string) = Ok r) /\ (exists r, lex (s2l "1E."%string) = Ok r) /\ (exists r, lex (s2l "A=1E!"%string) = Ok r).
 Proof. repeat split; eexists; vm_compute; reflexivity. Qed.
+
+(* ---- the parser has no way to panic (Proofs/ParseSafe.v) ---- *)
+From BL Require Import Lang.Ast Lang.Parse Proofs.ParseSafe.
+(* for every token list and line number the parser answers with a tree, a BASIC error or the fuel signal of the model -- the
+   outcome that stands for a Rust panic does not occur in any of its twenty-odd functions (carried through the parser monad by
+   a tactic; literal conversion checked separately) *)
+Theorem C03_parse_never_panics : forall n toks, parse n toks <> Panic.
+Proof. exact parse_never_panics. Qed.
+Print Assumptions C03_parse_never_panics.
